@@ -327,12 +327,17 @@ func vBuildCatalogue(seed, src string) (*vCatalogue, error) {
 		path := strings.ReplaceAll(strings.Join(segs, "."), ".[", "[")
 		switch n.Kind {
 		case yaml.ScalarNode:
+			if n.Anchor != "" {
+				return n.Line, nil // anchored scalars are not catalogued (their source span starts at the anchor)
+			}
 			l, q, err := span(n)
 			if err != nil {
 				return 0, err
 			}
 			p := &vPos{Seed: seed, Path: path, NPath: vNormalize(vGeneric(segs)), Line: n.Line, Col: n.Column, Len: l, Value: n.Value, Quoted: q, KeyLine: keyLine, Parent: parent}
 			c.Scalars = append(c.Scalars, p)
+			return n.Line, nil
+		case yaml.AliasNode:
 			return n.Line, nil
 		case yaml.SequenceNode:
 			end := n.Line
